@@ -995,8 +995,8 @@ def oracle(c, impl, traj):
             if traj and traj[0][0] == it and (n + 1 == len(st) or st[n + 1][0] != it) and (n == 0 or st[n - 1][0] != it):
                 return ("schedule:hill-while-asleep", "step %d (it=%d): a hill was added at a step that is not a multiple of "
                         "timeStepFactor %d" % (n, it, tsf), n), facts
-            if last_awake is not None and (im["E"] != last_awake["E"] or im["F"] != last_awake["F"] or im["hills"] != last_awake["hills"]):
-                return ("asleep:bias-changed", "step %d (it=%d): the bias sleeps (timeStepFactor %d) but its energy/forces/hills "
+            if last_awake is not None and (im["E"] != last_awake["E"] or im["F"] != last_awake["F"]):
+                return ("asleep:bias-changed", "step %d (it=%d): the bias sleeps (timeStepFactor %d) but its energy/forces "
                         "changed: %r %s -> %r %s" % (n, it, tsf, last_awake["E"], last_awake["F"], im["E"], im["F"]), n), facts
             continue
         last_awake = im
